@@ -1129,32 +1129,7 @@ func (c *Ctx) ruleErrSurface(rule string, fn *ssa.Function) {
 		c.Check(rule, fnName(fn)+"#no-error-list", true, fn.Pos(), "function keeps no error list")
 		return
 	}
-	// writers: in-function appends and go statements whose literal appends
-	isWriter := func(in ssa.Instruction) bool {
-		if m.isErrListStore(in, E) {
-			return true
-		}
-		if g, ok := in.(*ssa.Go); ok {
-			if mc, ok := g.Call.Value.(*ssa.MakeClosure); ok {
-				if af, ok := mc.Fn.(*ssa.Function); ok {
-					w := false
-					eachInstrDeep(af, func(_ *ssa.Function, i2 ssa.Instruction) {
-						if m.isErrListStore(i2, E) {
-							w = true
-						}
-					})
-					return w
-				}
-			}
-		}
-		return false
-	}
-	var writers []ssa.Instruction
-	eachInstr(fn, func(in ssa.Instruction) {
-		if isWriter(in) {
-			writers = append(writers, in)
-		}
-	})
+	writers := m.listWriters(E)
 	ri := 0
 	eachInstr(fn, func(in ssa.Instruction) {
 		r, ok := in.(*ssa.Return)
@@ -1192,6 +1167,10 @@ func (c *Ctx) ruleErrSurface(rule string, fn *ssa.Function) {
 					emptyKnown = true
 				}
 			}
+		}
+		if m.contradictoryListTests(in, E, writers) {
+			c.Check(rule, key, true, r.Pos(), "not reachable: the error list is tested twice with opposite outcomes and not written in between")
+			return
 		}
 		vals := x.PossibleValues(r.Results[len(r.Results)-1])
 		ok2 := true
@@ -2101,4 +2080,78 @@ func (c *Ctx) ruleOwnDc(rule string, fns []*ssa.Function) {
 
 func errorIface() *types.Interface {
 	return types.Universe.Lookup("error").Type().Underlying().(*types.Interface)
+}
+
+// listWriters: the instructions of the function that add to the error list E: in-function
+// appends and go statements whose literal appends.
+func (m *engFn) listWriters(E *ssa.Alloc) []ssa.Instruction {
+	isWriter := func(in ssa.Instruction) bool {
+		if m.isErrListStore(in, E) {
+			return true
+		}
+		if g, ok := in.(*ssa.Go); ok {
+			if mc, ok := g.Call.Value.(*ssa.MakeClosure); ok {
+				if af, ok := mc.Fn.(*ssa.Function); ok {
+					w := false
+					eachInstrDeep(af, func(_ *ssa.Function, i2 ssa.Instruction) {
+						if m.isErrListStore(i2, E) {
+							w = true
+						}
+					})
+					return w
+				}
+			}
+		}
+		return false
+	}
+	var writers []ssa.Instruction
+	eachInstr(m.fn, func(in ssa.Instruction) {
+		if isWriter(in) {
+			writers = append(writers, in)
+		}
+	})
+	return writers
+}
+
+// contradictoryListTests: the instruction stands under two tests of the error list with opposite
+// outcomes (`if !empty(list) { return errorOf(list) }` with errorOf testing again) and the list
+// is not written between them: it cannot be reached.
+func (m *engFn) contradictoryListTests(in ssa.Instruction, E *ssa.Alloc, writers []ssa.Instruction) bool {
+	x := m.x
+	fn := m.fn
+	emptyKnown, nonEmptyKnown := false, false
+	var listTests []*ssa.If
+	for _, g := range x.GuardsOf(in.Block()) {
+		if arg, nonEmpty, ok := x.lenCmpO(g.Cond); ok && x.readsList(arg, E) {
+			if nonEmpty == g.Pol {
+				nonEmptyKnown = true
+			} else {
+				emptyKnown = true
+			}
+			if g.If != nil {
+				listTests = append(listTests, g.If)
+			}
+		}
+	}
+	if !emptyKnown || !nonEmptyKnown {
+		return false
+	}
+	sort.Slice(listTests, func(i, j int) bool { return domInstr(listTests[i], listTests[j]) })
+	for k, t := range listTests {
+		var target ssa.Instruction = in
+		if k+1 < len(listTests) {
+			target = listTests[k+1]
+		}
+		from := ssa.Instruction(t)
+		for _, w := range writers {
+			// a way from this test to the next (or to the instruction) that does not come round to
+			// this test again and passes a writer
+			if _, a := pathExists(fn, from, func(i2 ssa.Instruction) bool { return i2 == w }, func(i2 ssa.Instruction) bool { return i2 == from || i2 == target }); a {
+				if _, b := pathExists(fn, w, func(i2 ssa.Instruction) bool { return i2 == target }, func(i2 ssa.Instruction) bool { return i2 == from }); b {
+					return false
+				}
+			}
+		}
+	}
+	return true
 }
